@@ -608,6 +608,8 @@ def run(ck, prog):
     rule_r6(ck, prog)
     rule_r7(ck, prog)
     rule_r8(ck, prog)
+    ck.doc('C14.R8', '(shared rule, see C14) ToHeader writes the member separator before every member but the first', 1)
+    c14.rule_separator_between_members(ck, prog, 'baggage::Baggage::ToHeader', 'C14.R8')
     c14.rule_r2_validated_is_stored(ck, prog, cls='baggage::Baggage', rule='C15.R3', names=('FromHeader',))
     c14.rule_r5_tokenizer(ck, prog, rule='C14.R5')
     c14.rule_r6(ck, prog, rule='C14.R6')
